@@ -190,22 +190,33 @@ def check_acc(run, m, only_count=False):
                trivial=(nreads == 0))
     # every call of the kernel must run both halves: no early exit from the closure
     if n_checked:
+        # an exit is harmless only where nothing is left to do: every add update has run, no element
+        # leaves the window on that path (or the leaving one is null) and the value returned is the
+        # closure's own result
+        import dtree as _dt
+        tail = m.body.get('expr') if m.body.get('k') == 'Block' else None
+        last_add = max([u.seq for u in m.updates if u.block == 'add'] or [0])
         exits = []
-
-        def find_exits(e, top=True):
-            k = e.get('k')
-            if k == 'Closure' and not top:
-                return
-            if k == 'Ret' or (k == 'Match' and 'TryDesugar' in e.get('src', '')):
-                exits.append(e)
-            for c in children(e):
-                find_exits(c, False)
-        find_exits(m.body, True)
+        for node, guards, seq in m.exits:
+            fine = False
+            if node.get('k') == 'Ret' and node.get('ch') and tail is not None and seq > last_add and \
+                    ('NOT(SOME(OLD))' in guards or 'NOT(VALID(OLD0))' in guards):
+                try:
+                    en_r = _dt.env_at(m.body, node, {})
+                    en_t = _dt.env_at(m.body, tail, {})
+                    fine = _dt.canon(node['ch'][0], dict(en_r)) == _dt.canon(tail, dict(en_t))
+                except Exception:
+                    fine = False
+            if not fine:
+                exits.append(node)
         run.ob('ACC.exit', fn, 'no early exit between the add and remove halves', not exits,
                _where(m, exits[0] if exits else m.cl),
                'the closure returns early at %s: on that path the expiring element is never '
                'removed (or the incoming one never added) while the driver still advances'
-               % ', '.join(loc(x) for x in exits) if exits else 'single exit at the end of the closure')
+               % ', '.join(loc(x) for x in exits) if exits else
+               ('single exit at the end of the closure' if not m.exits else
+                '%d early exit(s), each after the add half, on a path where nothing leaves the window, '
+                'returning the closure\'s own result' % len(m.exits)))
     # captures
     if not m.k.idx and not m.k.custom:
         param_ty = {}
